@@ -12,6 +12,7 @@ GENERATORS = [
     ('gen_regexes', 'Regexes.lean'),
     ('gen_tables', 'Tables.lean'),
     ('gen_builtins', 'Builtins.lean'),
+    ('gen_lexicon', 'Lexicon.lean'),
     ('gen_classes', 'Classes.lean'),
     ('gen_wrappers', 'Wrappers.lean'),
     ('gen_imports', 'Imports.lean'),
